@@ -1381,7 +1381,7 @@ Proof.
     rewrite (B n Hnn Hnt) in Hgone. rewrite (F3 n Hnn Hnt) in Hb. contradiction.
   - rewrite exec_app.
     destruct (clean_prefix_facts c init outs q Hq) as [Hru Hunt].
-    destruct (exec_ru q _ Hru) as (Ed & _ & _ & _).
+    destruct (exec_ru q (exec init (write_ops (c_fd c) outs)) Hru) as (Ed & _ & _ & _).
     destruct (F1 o Ho) as (i & L & _ & D).
     unfold visible. rewrite (Hunt _ (output_not_victim c init outs G o Ho)), L, Ed, D. reflexivity.
 Qed.
